@@ -25,8 +25,9 @@ func strAxioms(features map[string]bool, quant bool) []string {
 		ax = append(ax, "(forall ((a Str) (b Str)) (! (= (s.len (s.cat a b)) (+ (s.len a) (s.len b))) :pattern ((s.cat a b))))")
 		ax = append(ax, "(forall ((a Str) (b Str) (i Int)) (! (= (s.at (s.cat a b) i) (ite (< i (s.len a)) (s.at a i) (s.at b (- i (s.len a))))) :pattern ((s.at (s.cat a b) i))))")
 	}
-	if features["strcat"] {
-		// monoid laws (proved from extensionality: theory.bytestrings/lemma[cat-...])
+	if features["strcat"] && features["strmonoid"] {
+		// monoid laws: only for units that accumulate a string-valued ghost (ghost code at call sites): in other units
+		// the associativity instances made single queries of z3's incremental session run for minutes (proved from extensionality: theory.bytestrings/lemma[cat-...])
 		ax = append(ax, "(forall ((a Str) (b Str)) (! (=> (= (s.len b) 0) (= (s.cat a b) a)) :pattern ((s.cat a b))))")
 		ax = append(ax, "(forall ((a Str) (b Str)) (! (=> (= (s.len a) 0) (= (s.cat a b) b)) :pattern ((s.cat a b))))")
 		ax = append(ax, "(forall ((a Str) (b Str) (c Str)) (! (= (s.cat (s.cat a b) c) (s.cat a (s.cat b c))) :pattern ((s.cat (s.cat a b) c))))")
@@ -469,6 +470,7 @@ func batchDischarge(u *Unit, obls []*Obligation, dir string, perQueryMs int) {
 	_ = cmd.Run()
 	secs := time.Since(t0).Seconds()
 	var answers []string
+parse:
 	for _, l := range strings.Split(out.String(), "\n") {
 		l = strings.TrimSpace(l)
 		switch l {
@@ -476,9 +478,10 @@ func batchDischarge(u *Unit, obls []*Obligation, dir string, perQueryMs int) {
 			answers = append(answers, l)
 		default:
 			if strings.HasPrefix(l, "(error") {
-				// a malformed query poisons the rest of the session: stop trusting the batch
-				u.note("incremental session of %s abandoned: %s", u.rootKey, l)
-				return
+				// an error (malformed query, resource limit hit inside an assert: "push canceled") poisons the rest of the
+				// session: the answers given before it are in step with the queries and are kept, nothing after it is used
+				u.note("incremental session of %s abandoned after %d answers: %s", u.rootKey, len(answers), l)
+				break parse
 			}
 		}
 	}
@@ -489,7 +492,7 @@ func batchDischarge(u *Unit, obls []*Obligation, dir string, perQueryMs int) {
 		u.coverStatus = answers[0]
 		answers = answers[1:]
 	}
-	if hasExitCover && len(answers) == len(obls)+1 {
+	if hasExitCover && len(answers) == len(obls)+1 && ctx.Err() == nil {
 		u.exitCover = answers[len(answers)-1]
 	}
 	for i, o := range obls {
